@@ -265,6 +265,30 @@ def auto_index_min(fx, tt, h):
     return None
 
 
+def auto_div(fx, tt, h):
+    """Division / remainder by a sender-controlled value panics in every build profile. Safe when an edge that excludes zero for the very divisor dominates it:
+    d < 1 (False), d == 0 (False), d != 0 / d > 0 / d >= 1 (True)."""
+    b, bb = h['body'], h['bb']
+    og = tt.og(b)
+    cond = h['raw']
+    if not (cond[0] == 'bin' and cond[1] == 'Eq' and cond[3] == ('const', 'int', 0)):
+        return None
+    d = cond[2]
+    P = Pos(b)
+    good = []
+    for s_, t_, c, lab in switch_edges(b, fx, og):
+        if c[0] != 'bin' or c[2] != d or c[3][0] != 'const':
+            continue
+        k = int(c[3][2]) if c[3][1] == 'int' else None
+        op = c[1]
+        if (op == 'Lt' and k == 1 and lab is False) or (op == 'Eq' and k == 0 and lab is False) or (op == 'Ne' and k == 0 and lab is True) or \
+                (op == 'Gt' and k == 0 and lab is True) or (op == 'Ge' and k == 1 and lab is True) or (op == 'Le' and k == 0 and lab is False):
+            good.append((s_, t_))
+    if good and P.every_path_passes(None, (bb, 'term'), via_edges=good, from_entry=True):
+        return 'dominating guard excludes a zero divisor'
+    return None
+
+
 NAMED = {
     'submessage-length': g_submessage_length,
     'numberset-size': g_numberset_size,
@@ -442,6 +466,18 @@ def run_config(rep, fx, cfg, floor=True):
     for h in hz:
         key = h['key']
         b = h['body']
+        if h['kind'] == 'K5-arith' and h['callee'].startswith(('DivisionByZero', 'RemainderByZero')):
+            # not a debug-only check: dividing by zero panics in release builds as well
+            if key in seen:
+                continue
+            seen.add(key)
+            why = auto_div(fx, tt, h)
+            if why:
+                n_guard += 1
+                rep.ok('R06.1', key, why, h['where'])
+            else:
+                rep.violation('R06.1', key, 'a sender-controlled value is used as a divisor (%s) without a dominating check that it is not zero: one datagram panics the receive thread' % h['term'], h['where'])
+            continue
         if h['kind'] == 'K5-arith':
             n_arith += 1
             continue
@@ -491,7 +527,7 @@ def run_config(rep, fx, cfg, floor=True):
     # entries of the table whose site disappeared are harmless, but a shrinking table means the enumeration lost sight of them
     missing = [k for k in DISCHARGE if k not in seen and not k.startswith('rtps::fragment_assembler::AssemblyBuffer::new/K2') and not k.startswith('rtps::rtps_writer_proxy::RtpsWriterProxy::irrelevant')]
     if floor:
-        rep.floor('R06.1', len(seen), 31, 'hazard sites on the receive path')
+        rep.floor('R06.1', len(seen), 33, 'hazard sites on the receive path')
     rep.coverage_extra.setdefault('hazards', {})[cfg] = {'total': len(seen), 'type_rule': n_auto, 'guarded': n_guard, 'discharged_by_review': n_review,
                                                         'debug_only_arithmetic_checks': n_arith, 'table_entries_without_site': missing}
 
